@@ -161,7 +161,7 @@ def plan(prop, tier):
         bs = [B("A", 3, mode="any", runs=runs_prefixes, configs=cfg_two_methods, sample=4000 if q else None),
               B("A", 3 if q else 4, sample=None if not q else 4000), B("B", 3, mode="any", runs=runs_prefixes, configs=cfg_one_method, sample=1500 if q else None),
               *([B("A", 4, sample=2500, configs=cfg_two_methods)] if q else []),
-              B("B", 3, runs=runs_windows, configs=cfg_one_method, sample=300 if q else 3000),     # a date filter must not change which lots are consumed
+              B("B", 4, runs=runs_windows, configs=cfg_one_method, sample=600 if q else 6000),     # a date filter must not change which lots are consumed
               B("C", 3, configs=cfg_two_methods, sample=2500 if q else None),
               B("D", 2 if q else 3, mode="any", runs=runs_prefixes, configs=cfg_two_methods),
               B("A", 12, sim=150 if q else 3000, depth=12)]
